@@ -7,6 +7,7 @@ CONSTANTS
   DupTerm = FALSE
   ParentKill = FALSE
   ClearFirst = FALSE
+  NarrowExcept = FALSE
 INVARIANT TypeOK
 INVARIANT Inv_Reaped
 INVARIANT Inv_ParentsKnow
